@@ -109,7 +109,7 @@ def check(case):
 
 
 def _strategy(tier):
-    return st.tuples(sources.any_text(tier, weights=(2, 3, 3, 2, 5, 2, 2, 2, 3)), O.valid_options()).map(lambda t: {'text': t[0], 'opts': t[1]})
+    return st.tuples(O.valid_options(), sources.any_text(tier, weights=(2, 3, 3, 2, 5, 2, 2, 2, 3, 2))).map(lambda t: {'text': t[1], 'opts': t[0]})
 
 
 class Recording(io.StringIO):
@@ -148,5 +148,12 @@ def check_invalid(case):
     return res
 
 
-LEGS = [Leg('text', check=check, strategy=_strategy, examples={'quick': 16000, 'thorough': 400000}),
+def _dict_enum(tier):
+    from gen import soup
+    for i, text in enumerate(soup.dictionary_enumeration()):
+        yield {'text': text, 'opts': [{}, {'reindent': True}, {'reindent_aligned': True, 'strip_comments': True}, {'use_space_around_operators': True, 'keyword_case': 'upper'}][i % 4]}
+
+
+LEGS = [Leg('dictionary', check=check, enumerate=_dict_enum, exhaustive=True),
+        Leg('text', check=check, strategy=_strategy, examples={'quick': 16000, 'thorough': 400000}),
         Leg('invalid', check=check_invalid, enumerate=_invalid_cases, exhaustive=True, max_shards=2)]
